@@ -104,6 +104,9 @@ type Contract struct {
 	// receiver's struct type carries this clause itself (checkRecvInvClosed).
 	RecvInv     []*Clause
 	RecvInvName string
+	// Establishes: this function is a constructor of a type with a recvinv:
+	// it proves the invariant for the object it returns (clause `establishes`).
+	Establishes bool
 	// AbstractFloatDiv: floating-point quotients are translated as an
 	// uninterpreted function of their operands instead of IEEE division (an
 	// over-approximation: sound, costs precision only); for functions whose
@@ -132,7 +135,7 @@ type ContractFile struct {
 	Ghosts    map[string]string
 }
 
-var kwRe = regexp.MustCompile(`^(func|props|mode|requires|ghostinit|ensures_thorough|ensures|safe|pure|bounded|privatecaptures|privateparam|abstractfloatdiv|recvinv|assumecalleerequires|modifies|preserves|assumed|lemma|nonnil|loop|invariant|unroll|decreases|site|assert|assume|hint|ghostset|ghostdecl|spec|note|end)\b`)
+var kwRe = regexp.MustCompile(`^(func|props|mode|requires|ghostinit|ensures_thorough|ensures|safe|pure|bounded|privatecaptures|privateparam|abstractfloatdiv|recvinv|establishes|assumecalleerequires|modifies|preserves|assumed|lemma|nonnil|loop|invariant|unroll|decreases|site|assert|assume|hint|ghostset|ghostdecl|spec|note|end)\b`)
 // every element of a ghost sequence starts at a constant: forallkey(s, T, ghostat(obj, f(s), "name") == c)
 var ghostInitAllRe = regexp.MustCompile(`^forallkey\(\w+,\s*[\w.]+,\s*ghostat\(.*,\s*"[A-Za-z0-9_]+"\)\s*==\s*-?[0-9]+\)$`)
 var ghostInitRe = regexp.MustCompile(`^ghost\([A-Za-z0-9_.]+,\s*"[A-Za-z0-9_]+"\)\s*==\s*-?[0-9]+$`)
@@ -291,6 +294,22 @@ func ParseContractFile(path, pkgPath string) (*ContractFile, error) {
 			}
 			cur.RecvInv = append(cur.RecvInv, c)
 			cur.RecvInvName = fs[0]
+			cur.Ensures = append(cur.Ensures, c)
+		case "establishes":
+			// constructor side of a recvinv: the named result satisfies the
+			// invariant when it is returned (an ordinary postcondition; the
+			// clause also tells the closedness check that this writer of
+			// the type's fields proves the invariant)
+			fs := strings.Fields(rest)
+			if len(fs) < 2 {
+				return nil, fmt.Errorf("%s:%d: establishes <result name> <invariant over it>", path, rl.line)
+			}
+			body := strings.TrimSpace(rest[len(fs[0]):])
+			c, err := parseExprClause("ensures", fmt.Sprintf("[representation-invariant-established] implies(%s != nil, %s)", fs[0], body), path, rl.line)
+			if err != nil {
+				return nil, err
+			}
+			cur.Establishes = true
 			cur.Ensures = append(cur.Ensures, c)
 		case "privateparam":
 			cur.PrivateParams = append(cur.PrivateParams, strings.Fields(rest)...)
